@@ -1,4 +1,4 @@
-import GnoVerif.Proofs.C49Thms
+import GnoVerif.Proofs.C49Abs
 /-!
 C49 — the concurrent list (tm2/pkg/clist) is linearizable and never loses wake-ups.
 
@@ -93,6 +93,35 @@ theorem removed_cursor_moves_forward (s : State) (hs : Reachable s) (i n : Nat)
     (hi : i < s.size) (hn : (s.elems i).next = some n) : i < n ∧ n < s.size ∧ GapRem s i n := by
   obtain ⟨a, b, c, _⟩ := (hs.inv.elem i hi).next_some n hn
   exact ⟨a, b, c⟩
+
+/-! ### linearizable: the atomic steps refine a sequential list
+
+`remaining s` — the ids created and not removed, in insertion order — is the abstract state.
+Every method body is one atomic step of the model, so every concurrent history of the model
+IS a sequential history; what is proved here is that this sequential history is one of the
+specification "list of remaining elements": pushes append, removals delete, nothing else
+changes it, and every observation is the observation of the abstract list. -/
+
+theorem linearizable_steps (s : State) (hs : Reachable s) :
+    ((stepR s .push).2 = .pushed s.size ∧ remaining (step s .push) = remaining s ++ [s.size]) ∧
+    (∀ e, e ∈ remaining s →
+      (stepR s (.remove e)).2 = .ok ∧
+      remaining (step s (.remove e)) = (remaining s).filter (fun j => j != e)) ∧
+    (∀ op, op ≠ .push → (∀ e, op ≠ .remove e) → remaining (step s op) = remaining s) := by
+  refine ⟨remaining_push hs.inv, fun e he => ?_, fun op h1 h2 => remaining_other s op h1 h2⟩
+  unfold remaining at he
+  rw [List.mem_filter, List.mem_range] at he
+  exact remaining_remove hs.inv he.1 (by simpa using he.2)
+
+theorem linearizable_observations (s : State) (hs : Reachable s) :
+    s.head = (remaining s).head? ∧ s.tail = (remaining s).getLast? ∧
+    s.len = ((remaining s).length : Int) ∧
+    ∀ i, i ∈ remaining s →
+      (s.elems i).next = ((remaining s).filter (fun j => decide (i < j))).head? := by
+  refine ⟨head_eq_remaining hs.inv, tail_eq_remaining hs.inv, len_eq_remaining hs.inv, fun i hi => ?_⟩
+  unfold remaining at hi
+  rw [List.mem_filter, List.mem_range] at hi
+  exact next_eq_remaining hs.inv hi.1 (by simpa using hi.2)
 
 /-! ### traversals -/
 
@@ -229,6 +258,7 @@ example : LegalRun init (demo ++ [.remove 1]) := by decide
 example : ((run init [.push, .push, .push, .remove 1, .tfront 0, .tstep 0, .tnext 0, .tstep 0]).travs 0)
     = { st := .at 2, log := [0, 2] } := by decide
 example : LegalRun init staleNextRun := by decide
+example : remaining (run init [.push, .push, .push, .remove 1, .push]) = [0, 2, 3] := by decide
 example : ((run init staleNextRun).travs 0).st = .wantNext 1 none ∧ (run init staleNextRun).rem 1 = true := by
   decide
 end examples
